@@ -40,22 +40,52 @@ def pick_types(r, q, n):
 
 # every feature returns dict(pkg=<"main"|"sub">, decls=str, run=str, main_decls=str, sub_decls=str, unsafe=bool, name=str)
 
+def equiv_shapes(q, K):
+    """IDENTICAL types in several spellings (interfaces written with embedding / written out / reordered, parameter names
+    inside func types, any vs interface{}).  NOT byte/uint8 or rune/int32: that pair is a recorded finding with its own witness."""
+    k = dict(K=K, q=q)
+    return [tuple(x % k for x in t) for t in [
+        ("interface{ rd%(K)s; name%(K)s() string }", "interface{ read%(K)s() int; name%(K)s() string }",
+         "interface{ name%(K)s() string; read%(K)s() int }", "interface{ rd%(K)s; nm%(K)s }", "interface{ nm%(K)s; read%(K)s() int }"),
+        ("[]interface{ rd%(K)s; name%(K)s() string }", "[]interface{ name%(K)s() string; read%(K)s() int }"),
+        ("func(interface{ rd%(K)s; nm%(K)s }) int", "func(x interface{ read%(K)s() int; name%(K)s() string }) (n int)"),
+        ("interface{ %(q)sGetter; Name() string }", "interface{ Get() int; Name() string }", "interface{ Name() string; %(q)sGetter }"),
+        ("map[string]interface{ %(q)sGetter; rd%(K)s }", "map[string]interface{ read%(K)s() int; Get() int }"),
+        ("func(int) string", "func(x int) (s string)"),
+        ("any", "interface{}"),
+        ("struct{ f interface{ rd%(K)s; nm%(K)s } }", "struct{ f interface{ read%(K)s() int; name%(K)s() string } }"),
+        ("*interface{ nm%(K)s }", "*interface{ name%(K)s() string }"),
+    ]]
+
+
 def f_iface_unexported(r, K, pkg):
     q = "sub." if pkg == "main" else ""
     np_ = r.choice([0, 1, 1, 2, 2, 3])
     same = np_ >= 2 and r.random() < 0.25
-    pts = pick_types(r, q, np_)
+    eq = equiv_shapes(q, K)
+
+    def pick3():
+        """(spelling in the implementation, spelling in the interface, spelling at the use site) of one type"""
+        if r.random() < 0.4:
+            t = r.choice(eq)
+            return r.choice(t), r.choice(t), r.choice(t)
+        t = r.choice(shapes(q))
+        return t, t, t
+    p3 = [pick3() for _ in range(np_)]
     if same:
-        pts = [pts[0]] * np_
+        p3 = [p3[0]] * np_
+    pts = [t[0] for t in p3]
     variadic = np_ >= 1 and r.random() < 0.3
     nres = r.choice([0, 1, 1, 2])
-    rts = pick_types(r, q, nres)
+    r3 = [pick3() for _ in range(nres)]
+    rts = [t[0] for t in r3]
     ptr = r.random() < 0.5
     # implementation: named parameters / results (grouped when all of one type)
     def plist(names, impl):
         parts = []
-        for i, t in enumerate(pts):
-            tt = ("..." + t) if (variadic and i == len(pts) - 1) else t
+        for i, t3 in enumerate(p3):
+            t = t3[0] if impl else t3[1]
+            tt = ("..." + t) if (variadic and i == len(p3) - 1) else t
             parts.append((names % i + " " if names else "") + tt)
         if impl and same and not variadic:
             return ", ".join("a%d" % i for i in range(np_)) + " " + pts[0]
@@ -63,9 +93,10 @@ def f_iface_unexported(r, K, pkg):
     impl_params = plist("a%d", True)
     iface_params = plist(r.choice(["", "", "p%d", "a%d"]), False)
     impl_res = "" if nres == 0 else " (" + ", ".join("r%d %s" % (i, t) for i, t in enumerate(rts)) + ")"
-    iface_res = "" if nres == 0 else (" " + rts[0] if nres == 1 else " (" + ", ".join(rts) + ")")
+    irts = [t[1] for t in r3]
+    iface_res = "" if nres == 0 else (" " + irts[0] if nres == 1 else " (" + ", ".join(irts) + ")")
     variant = r.choice(["direct", "any", "anon", "embedded", "local"])
-    d = []
+    d = ["type rd%s interface{ read%s() int }" % (K, K), "type nm%s interface{ name%s() string }" % (K, K)]
     d.append("type i%s interface{ m%s(%s)%s }" % (K, K, iface_params, iface_res))
     d.append("type t%s struct{ v int }" % K)
     d.append("func (t %st%s) m%s(%s)%s { println(\"%s:m\", t.v); return }" % ("*" if ptr else "", K, K, impl_params, impl_res, K))
@@ -76,7 +107,7 @@ def f_iface_unexported(r, K, pkg):
     val = "%st%s{%s}" % ("&" if ptr else "", K, K)
     args = []
     run = []
-    for i, t in enumerate(pts):
+    for i, t in enumerate(t3[2] for t3 in p3):
         if variadic and i == len(pts) - 1:
             if r.random() < 0.5:
                 run.append("var a%d %s" % (i, t)); args.append("a%d" % i)
